@@ -665,6 +665,42 @@ class SymEnum:
     def __hash__(self):
         return hash(self.get())
 
+    # ordering / formatting need the concrete value: fork over the feasible ones and let Python decide
+    def __lt__(self, o):
+        return self.get() < (o.get() if isinstance(o, SymEnum) else o)
+
+    def __gt__(self, o):
+        return self.get() > (o.get() if isinstance(o, SymEnum) else o)
+
+    def __le__(self, o):
+        return self.get() <= (o.get() if isinstance(o, SymEnum) else o)
+
+    def __ge__(self, o):
+        return self.get() >= (o.get() if isinstance(o, SymEnum) else o)
+
+    def __format__(self, spec):
+        return "<symbolic value>"
+
+    def __repr__(self):
+        return "<SymEnum of %d>" % len(self.vals)
+
+    def __iter__(self):
+        return iter(self.get())
+
+    def __len__(self):
+        return len(self.get())
+
+    def __getitem__(self, k):
+        return self.get()[k]
+
+    def isinstance_of(self, classes):
+        idx = [i for i, v in enumerate(self.vals) if builtins.isinstance(v, classes)]
+        if not idx:
+            return False
+        if len(idx) == len(self.vals):
+            return True
+        return SymBool(z3.Or([self.sel == i for i in idx]))
+
     def model(self, m):
         return self.vals[m.eval(self.sel, model_completion=True).as_long()]
 
@@ -704,6 +740,10 @@ def is_symbolic(x):
     return isinstance(x, (SymBool, SymInt, SymBytes, SymStr, SymEnum))
 
 
+def _list_eq(a, b):
+    return a == b
+
+
 # shadows for module namespaces -------------------------------------------
 _TYPEMAP = {builtins.int: (SymInt,), builtins.bytes: (SymBytes,), builtins.str: (SymStr,),
             builtins.bool: (SymBool,)}
@@ -715,6 +755,9 @@ _SHADOW_TYPES = {}   # shadow function -> builtin type it stands for
 def sym_isinstance(obj, cls):
     classes = cls if builtins.isinstance(cls, builtins.tuple) else (cls,)
     classes = builtins.tuple(_SHADOW_TYPES.get(c, c) if not builtins.isinstance(c, type) else c for c in classes)
+    if builtins.isinstance(obj, SymEnum):
+        r = obj.isinstance_of(classes)
+        return r if builtins.isinstance(r, builtins.bool) else builtins.bool(r)
     if builtins.isinstance(obj, classes):
         return True
     for c in classes:
